@@ -537,30 +537,43 @@ def _check_coercion(chk, rule, repo, enc):
     where = f"{enc.relpath}:encode_array"
     param = ea.positional_params[0]
     COERCE = {"numpy.asarray", "numpy.array", "numpy.asanyarray", "numpy.ascontiguousarray"}
-    coerced_at = None
-    for st in ea.node.body:
-        for n in [st] + list(ast.walk(st)) if not isinstance(st, ast.FunctionDef) else []:
-            if isinstance(n, ast.Assign) and len(n.targets) == 1 and isinstance(n.targets[0], ast.Name) and n.targets[0].id == param:
-                if isinstance(n.value, ast.Call) and _fq(repo, ea, n.value.func) in COERCE:
-                    coerced_at = n.lineno if coerced_at is None else min(coerced_at, n.lineno)
-    # first ndarray-API use of the parameter outside the isinstance(obj, Array) branch
-    uses = []
+    flow = Flow(ea)
+    raw = {param}
+    coerced = set()          # names bound to np.asarray(<the data>) (the parameter itself once it is re-bound)
+    rebound_at = None
+    for n in sorted((x for x in ea.own_nodes() if isinstance(x, ast.Assign) and len(x.targets) == 1 and isinstance(x.targets[0], ast.Name)), key=lambda x: x.lineno):
+        v = n.value
+        if isinstance(v, ast.Name) and v.id in raw and n.targets[0].id != param:
+            raw.add(n.targets[0].id)
+        if isinstance(v, ast.Call) and _fq(repo, ea, v.func) in COERCE and v.args and isinstance(v.args[0], ast.Name) and v.args[0].id in raw:
+            if n.targets[0].id == param:
+                rebound_at = n.lineno if rebound_at is None else min(rebound_at, n.lineno)
+            else:
+                coerced.add(n.targets[0].id)
+    NDARRAY_API = ("dtype", "tolist", "astype", "shape", "ndim", "view", "reshape")
+
+    def in_array_branch(n):
+        return any(pol and "isinstance" in norm(t) and "Array" in norm(t) for t, pol in guards_of(n, ea.node))
+    uses, coerced_uses = [], []
     for n in ea.own_nodes():
-        if isinstance(n, ast.Attribute) and isinstance(n.value, ast.Name) and n.value.id == param and n.attr in ("dtype", "tolist", "astype", "shape", "ndim"):
-            gs = guards_of(n, ea.node)
-            in_array_branch = any(pol and "isinstance" in norm(t) and "Array" in norm(t) for t, pol in gs)
-            if not in_array_branch:
+        if isinstance(n, ast.Attribute) and isinstance(n.value, ast.Name) and n.attr in NDARRAY_API and not in_array_branch(n):
+            if n.value.id in coerced or (n.value.id == param and rebound_at is not None and n.lineno > rebound_at):
+                coerced_uses.append(n)
+            elif n.value.id in raw:
                 uses.append(n)
-        if isinstance(n, ast.Call) and any(isinstance(a, ast.Name) and a.id == param for a in n.args):
-            gs = guards_of(n, ea.node)
-            in_array_branch = any(pol and "isinstance" in norm(t) and "Array" in norm(t) for t, pol in gs)
+        if isinstance(n, ast.Call) and not in_array_branch(n) and not (isinstance(n.func, ast.Name) and n.func.id == "isinstance") and _fq(repo, ea, n.func) not in COERCE:
             cs = resolve_callees(repo, ea, n.func)
-            if not in_array_branch and cs and _fq(repo, ea, n.func) not in COERCE and not (isinstance(n.func, ast.Name) and n.func.id == "isinstance"):
-                uses.append(n)
-    if not uses:
+            for a_ in n.args:
+                if isinstance(a_, ast.Name) and cs:
+                    if a_.id in coerced or (a_.id == param and rebound_at is not None and n.lineno > rebound_at):
+                        coerced_uses.append(n)
+                    elif a_.id in raw:
+                        uses.append(n)
+    if not uses and not coerced_uses:
         raise AnalysisError("anchor vanished: ndarray API use in encode_array")
-    first_use = min(u.lineno for u in uses)
-    ok = coerced_at is not None and coerced_at <= first_use
+    ok = not uses
+    if not uses:
+        uses = coerced_uses
     alt = False
     if not ok:
         # alternative repair: every Variable built by the reader already wraps an ndarray
